@@ -69,7 +69,7 @@ TReset == /\ l <= N /\ TraceLog[l].e = "Reset"
 TCmd == /\ l <= N /\ TraceLog[l].e = "cmd"
         /\ LET ln == TraceLog[l]
                res == [s \in Names |-> IF s \notin DOMAIN ln.trk THEN Empty
-                                        ELSE ApplyRecs([n \in DOMAIN imir[s] |-> [seq |-> imir[s][n], ok |-> TRUE, live |-> TRUE]], Get(ln.x, s, <<>>), untr[s])]
+                                        ELSE ApplyRecs([n \in DOMAIN imir[s] |-> [seq |-> imir[s][n], ok |-> TRUE, live |-> TRUE]], Get(ln.x, s, <<>>), untr[s] \cup Range(Get(ln.untr, s, <<>>)))]     \* (a node can stop being tracked within the command: a BATCH that subscribes first)
                trk2 == [s \in Names |-> IF s \in DOMAIN ln.trk THEN Range(ln.trk[s]) ELSE {}]
                Mir(s, n) == IF n \in DOMAIN res[s] /\ res[s][n].live THEN res[s][n].seq ELSE <<>>
                nb == (IF \E s \in Names : \E n \in trk2[s] : Mir(s, n) # ServerIdx(ln, n) THEN {"ReplayOK"} ELSE {})
